@@ -251,6 +251,9 @@ HOSTILE = {     # (input protocol, validator) -> {name: (body, wsgi env)}
         'quoted empty charset': (_soapb('<take xmlns="tns"><item><name>a</name></item></take>'), {'CONTENT_TYPE': 'text/xml; charset=""'}),
         'bytes invalid for the declared charset': (_soapb('<take xmlns="tns"><item><name>').replace(b'</s:Body></s:Envelope>', b'') + b'\xff\xfe</name></item></take></s:Body></s:Envelope>', {'CONTENT_TYPE': 'text/xml; charset=utf-8'}),
         'cyclic href': (_soapb('<take xmlns="tns"><item id="a" href="#b"/><x id="b" href="#a"/></take>'), {}),
+        'POST without a Content-Type header': (_soapb('<take xmlns="tns"><item><name>a</name></item></take>'), {'CONTENT_TYPE': None}),
+        'empty Content-Type header': (_soapb('<take xmlns="tns"><item><name>a</name></item></take>'), {'CONTENT_TYPE': ''}),
+        'GET with a body': (_soapb('<take xmlns="tns"><item><name>a</name></item></take>'), {'REQUEST_METHOD': 'GET'}),
         'entity reference as child of an object': (b'<!DOCTYPE x [<!ENTITY x "y">]>' + _soapb('<take xmlns="tns"><item>&x;</item></take>'), {}),
     },
     'json': {
@@ -271,6 +274,9 @@ HOSTILE = {     # (input protocol, validator) -> {name: (body, wsgi env)}
         'bare primitive': (b'{"ping": 5}', {}),
         'bare primitive of the wrong kind': (b'{"ping": {"a": 5}}', {}),
         'bare primitive null': (b'{"ping": null}', {}),
+        'no Content-Type header': (b'{"take": {"item": {"name": "a"}}}', {'CONTENT_TYPE': None}),
+        'negative infinity for an integer': (b'{"take": {"item": {"many": [-Infinity]}}}', {}),
+        'huge negative exponent for an integer': (b'{"take": {"item": {"many": [-1e999]}}}', {}),
         'deep nesting': (b'[' * 5000 + b']' * 5000, {}),
         'huge exponent': (b'{"take": {"item": {"many": [1e999999]}}}', {}),
         'duplicate keys': (b'{"take": {"item": {"name": "a", "name": "b"}}, "take": 5}', {}),
@@ -326,7 +332,7 @@ def _hostile_app(proto, validator):
                     'spyne.protocol.soap.soap11.Soap11.decompose_incoming_envelope',
                     'spyne.protocol.yaml.YamlDocument.create_in_document',
                     'spyne.protocol.dictdoc.hier.HierDictDocument._doc_to_object'],
-         bounds={'requests': 'the concrete protocol-specific hostile documents listed in HOSTILE (12 XML, 13 SOAP, 20 JSON, 14 YAML, 9 MessagePack), '
+         bounds={'requests': 'the concrete protocol-specific hostile documents listed in HOSTILE (12 XML, 16 SOAP, 23 JSON, 14 YAML, 9 MessagePack), '
                              'each through WsgiApplication, validators soft / None (/ lxml for XML and SOAP), chunked or not'})
 def hostile_documents(sx, p):
     """a structurally hostile document is answered (normally or with a Client fault) - nothing escapes the WSGI callable,
@@ -343,6 +349,8 @@ def hostile_documents(sx, p):
                'SERVER_PORT': '80', 'wsgi.url_scheme': 'http', 'wsgi.input': io.BytesIO(body),
                'CONTENT_LENGTH': str(len(body)), 'CONTENT_TYPE': 'text/xml' if proto in ('xml', 'soap11') else 'text/plain'}
     environ.update(env)
+    for k in [k for k, v in environ.items() if v is None]:
+        del environ[k]              # a header that is not sent at all
     status = []
     out = b''.join(w(environ, lambda s, h, e=None: status.append(s)))
     sx.observe('status', status)
